@@ -158,6 +158,10 @@ pub struct Ctx<'a> {
     pub r3: &'a URoom,
     pub now: i64,
     pub fdate: i64,
+    /// a second device that receives the same fixtures (C12: the honest peer holding the same definition)
+    pub mirror: Option<usize>,
+    /// fixtures planted by the last prepare_op
+    pub last_fixtures: std::cell::RefCell<(Vec<discret::verif::database::node::Node>, Vec<discret::verif::database::edge::Edge>)>,
 }
 
 pub struct OpResult {
@@ -210,6 +214,19 @@ impl<'a> Ctx<'a> {
         None
     }
 
+    async fn plant_fix(
+        &self,
+        x: usize,
+        nodes: Vec<discret::verif::database::node::Node>,
+        edges: Vec<discret::verif::database::edge::Edge>,
+    ) -> Result<(), String> {
+        *self.last_fixtures.borrow_mut() = (nodes.clone(), edges.clone());
+        if let Some(m) = self.mirror {
+            self.u.plant(m, nodes.clone(), edges.clone()).await?;
+        }
+        self.u.plant(x, nodes, edges).await
+    }
+
     /// plant the fixtures of `op` on x's device and build the request
     pub async fn prepare_op(&self, x: usize, op: &str) -> Result<Prepared, String> {
         let u = self.u;
@@ -250,7 +267,7 @@ impl<'a> Ctx<'a> {
             "update_own_P" | "update_foreign_P" => {
                 let own = op == "update_own_P";
                 let n = u.make_p(r1, if own { x } else { f }, fd, "fix");
-                u.plant(x, vec![n.clone()], vec![]).await?;
+                self.plant_fix(x, vec![n.clone()], vec![]).await?;
                 needs.push(need(Rm::R1, "ns.P", if own { Right::Own } else { Right::All }));
                 ("mutate { ns.P { id:$id name:\"u\" } }".into(), params(&[pr("id", b64(&n.id))]))
             }
@@ -265,7 +282,7 @@ impl<'a> Ctx<'a> {
                     (Rm::R3, Rm::R1)
                 };
                 let n = u.make_p(Some(self.rid(from)), if own { x } else { f }, fd, "fix");
-                u.plant(x, vec![n.clone()], vec![]).await?;
+                self.plant_fix(x, vec![n.clone()], vec![]).await?;
                 let r = if own { Right::Own } else { Right::All };
                 needs.push(need(from, "ns.P", r));
                 needs.push(need(to, "ns.P", r));
@@ -281,7 +298,7 @@ impl<'a> Ctx<'a> {
                 let parent = u.make_p(r2, x, fd, "parent");
                 let q = u.make_q(r1, if own_q { x } else { f }, fd, "sub");
                 let e = u.make_edge(&parent, &u.p_q, &q, x, fd);
-                u.plant(x, vec![parent.clone(), q.clone()], vec![e]).await?;
+                self.plant_fix(x, vec![parent.clone(), q.clone()], vec![e]).await?;
                 needs.push(need(Rm::R1, "ns.Q", if own_q { Right::Own } else { Right::All }));
                 if op.ends_with("parent_changed") {
                     needs.push(need(Rm::R2, "ns.P", Right::Own));
@@ -300,7 +317,7 @@ impl<'a> Ctx<'a> {
                 let own = op == "addref_own_P";
                 let pn = u.make_p(r1, if own { x } else { f }, fd, "fix");
                 let q = u.make_q(r1, x, fd, "sub");
-                u.plant(x, vec![pn.clone(), q.clone()], vec![]).await?;
+                self.plant_fix(x, vec![pn.clone(), q.clone()], vec![]).await?;
                 needs.push(need(Rm::R1, "ns.P", if own { Right::Own } else { Right::All }));
                 (
                     "mutate { ns.P { id:$p qs:[{id:$q}] } }".into(),
@@ -313,14 +330,14 @@ impl<'a> Ctx<'a> {
                 let pn = u.make_p(r1, a, fd, "fix");
                 let q = u.make_q(r1, a, fd, "sub");
                 let e = u.make_edge(&pn, &u.p_q, &q, a, fd);
-                u.plant(x, vec![pn.clone(), q.clone()], vec![e]).await?;
+                self.plant_fix(x, vec![pn.clone(), q.clone()], vec![e]).await?;
                 needs.push(need(Rm::R1, "ns.P", if own { Right::Own } else { Right::All }));
                 ("mutate { ns.P { id:$p q:null } }".into(), params(&[pr("p", b64(&pn.id))]))
             }
             "delete_own_P" | "delete_foreign_P" => {
                 let own = op == "delete_own_P";
                 let n = u.make_p(r1, if own { x } else { f }, fd, "fix");
-                u.plant(x, vec![n.clone()], vec![]).await?;
+                self.plant_fix(x, vec![n.clone()], vec![]).await?;
                 needs.push(need(Rm::R1, "ns.P", if own { Right::Own } else { Right::All }));
                 del = true;
                 ("delete { ns.P { $id } }".into(), params(&[pr("id", b64(&n.id))]))
@@ -331,7 +348,7 @@ impl<'a> Ctx<'a> {
                 let pn = u.make_p(r1, if own_p { x } else { f }, fd, "fix");
                 let q = u.make_q(r1, if own_p { x } else { f }, fd, "sub");
                 let e = u.make_edge(&pn, &u.p_qs, &q, if own_e { x } else { f }, fd);
-                u.plant(x, vec![pn.clone(), q.clone()], vec![e]).await?;
+                self.plant_fix(x, vec![pn.clone(), q.clone()], vec![e]).await?;
                 // the source row is re-dated and re-signed by the caller: it is the row that changes
                 needs.push(need(Rm::R1, "ns.P", if own_p { Right::Own } else { Right::All }));
                 del = true;
@@ -483,7 +500,7 @@ pub async fn explore_history(
     }
     out.state(&r1.ro.matrix(&[tick(1), tick(5), tick(9), tick(13)]));
     for now in clocks {
-        let ctx = Ctx { u, r1: r1.clone(), r2, r3, now, fdate: tick(1) };
+        let ctx = Ctx { u, r1: r1.clone(), r2, r3, now, fdate: tick(1) - 60_000, mirror: None, last_fixtures: Default::default() };
         for x in [3usize, 2, 1, 0] {
             for op in OPS {
                 if x == 0 && op.starts_with("room_") {
@@ -613,7 +630,7 @@ fn replay(path: &str) -> i32 {
                     u.spread_room(&r1, 0).await;
                 }
             }
-            let ctx = Ctx { u: &u, r1: r1.clone(), r2: &r2, r3: &r3, now, fdate: tick(1) };
+            let ctx = Ctx { u: &u, r1: r1.clone(), r2: &r2, r3: &r3, now, fdate: tick(1) - 60_000, mirror: None, last_fixtures: Default::default() };
             let pre = ctx.prepare_op(x, &op).await?;
             let needs = pre.needs.clone();
             let forbidden = pre.forbidden;
